@@ -164,33 +164,43 @@ Section Loop.
       apply Qltb_true in Elow.
       assert (Htf : t < first) by lra.
       destruct Hfst as [[y [Hy Hyf]]|Hall]; [|specialize (Hall t (or_introl eq_refl)); lra].
-      destruct Hy as [->|Hy]; [lra|].
-      destruct (IH o0 ost cs) as [res [Hres Hok]]; auto.
-      + intros u Hu Hfu. apply Hge; simpl; auto.
-      + intros E u Hu. apply Hend; simpl; auto.
-      + intros x Hx. destruct (Hcov x Hx) as [z [[->|Hz] Hxz]]; [|eauto].
-        pose proof (sorted_tail_gt _ _ HsO _ Hx). lra.
-      + left. eauto.
-      + exists (0 :: res). rewrite Hres. split; [reflexivity|].
-        apply ok_out_cons; auto. intros t2 Ht2 t' H1 H2.
-        pose proof (sorted_hd_le _ _ _ HsR Ht2 Hy). symmetry. apply Hglow. lra.
+      destruct Hy as [Hy|Hy]; [rewrite Hy in Htf; lra|].
+      assert (P8 : forall u, In u rest -> first <= u -> o0 <= u)
+        by (intros u Hu Hfu; apply Hge; simpl; auto).
+      assert (P9 : ost = [] -> forall u, In u rest -> tol < u - last)
+        by (intros E u Hu; apply Hend; simpl; auto).
+      assert (P10 : forall x, In x ost -> exists z, In z rest /\ x == z).
+      { intros x Hx. destruct (Hcov x Hx) as [z [[Hz|Hz] Hxz]]; [|eauto].
+        pose proof (sorted_tail_gt _ _ HsO _ Hx). rewrite <- Hz in Hxz. lra. }
+      assert (P11 : (exists z, In z rest /\ z == first) \/ (forall u, In u rest -> first <= u))
+        by (left; eauto).
+      destruct (IH o0 ost cs HsR HiR HsO HiO Hlast Hmax Hfo P8 P9 P10 P11 Hlen Hzero Hg)
+        as [res [Hres Hok]].
+      exists (0 :: res). rewrite Hres. split; [reflexivity|].
+      apply ok_out_cons; auto. intros t2 Ht2 t' H1 H2.
+      pose proof (sorted_hd_le _ _ _ HsR Ht2 Hy). symmetry. apply Hglow. lra.
     - apply Qltb_false in Elow.
       assert (Hft : first <= t).
       { destruct (Hsep first t Hfirst Htp) as [H|[H|H]]; lra. }
       assert (Hot : o0 <= t) by (apply Hge; simpl; auto).
+      assert (P11 : (exists z, In z rest /\ z == first) \/ (forall u, In u rest -> first <= u)).
+      { right. intros u Hu. specialize (Hrgt u Hu). lra. }
       destruct (Qltb tol (t - last)) eqn:Ehigh.
       + (* after the pulse has ended *)
         apply Qltb_true in Ehigh.
-        destruct (IH o0 ost cs) as [res [Hres Hok]]; auto.
-        * intros u Hu Hfu. apply Hge; simpl; auto.
-        * intros E u Hu. apply Hend; simpl; auto.
-        * intros x Hx. destruct (Hcov x Hx) as [z [[->|Hz] Hxz]]; [|eauto].
-          assert (x <= last) by (apply Hmax; simpl; auto). lra.
-        * right. intros u Hu. specialize (Hrgt u Hu). lra.
-        * exists (0 :: res). rewrite Hres. split; [reflexivity|].
-          apply ok_out_cons; auto. intros t2 Ht2 t' H1 H2.
-          rewrite Hg by lra. symmetry. apply step_fn_after.
-          intros x Hx. specialize (Hmax x Hx). lra.
+        assert (P8 : forall u, In u rest -> first <= u -> o0 <= u)
+          by (intros u Hu Hfu; apply Hge; simpl; auto).
+        assert (P9 : ost = [] -> forall u, In u rest -> tol < u - last)
+          by (intros E u Hu; apply Hend; simpl; auto).
+        assert (P10 : forall x, In x ost -> exists z, In z rest /\ x == z).
+        { intros x Hx. destruct (Hcov x Hx) as [z [[Hz|Hz] Hxz]]; [|eauto].
+          assert (x <= last) by (apply Hmax; simpl; auto). rewrite <- Hz in Hxz. lra. }
+        destruct (IH o0 ost cs HsR HiR HsO HiO Hlast Hmax Hfo P8 P9 P10 P11 Hlen Hzero Hg)
+          as [res [Hres Hok]].
+        exists (0 :: res). rewrite Hres. split; [reflexivity|].
+        apply ok_out_cons; auto. intros t2 Ht2 t' H1 H2.
+        rewrite Hg by lra. symmetry. apply step_fn_after.
+        intros x Hx. specialize (Hmax x Hx). lra.
       + (* inside the pulse *)
         apply Qltb_false in Ehigh.
         assert (Htl : t <= last).
@@ -201,57 +211,68 @@ Section Loop.
         assert (Hnxp : In nx pts) by (apply HiO; simpl; auto).
         assert (Ho0nx : o0 < nx) by (apply (sorted_tail_gt _ _ HsO); simpl; auto).
         assert (HsO' : StronglySorted Qlt (nx :: ost')) by (eapply sorted_tail; eauto).
+        assert (Hnl : nx <= last) by (apply Hmax; simpl; auto).
         destruct cs as [|c0 cs']; [simpl in Hlen; lia|].
-        destruct cs' as [|c1 cs'']; [simpl in Hlen; lia|].
+        destruct cs' as [|c1 cs2]; [simpl in Hlen; lia|].
         cbn [nth_error tl].
         destruct (Hcov nx (or_introl eq_refl)) as [ynx [Hynx Enx]].
         destruct (Qle_bool nx (t + tol)) eqn:Eadv.
         * (* the next old grid point is reached: advance *)
           apply Qle_bool_iff in Eadv.
           assert (Hnxt : nx == t).
-          { destruct Hynx as [<-|Hy]; [lra|]. specialize (Hrgt _ Hy).
+          { destruct Hynx as [Hy|Hy]; [rewrite <- Hy in Enx; lra|]. specialize (Hrgt _ Hy).
             destruct (Hsep nx t Hnxp Htp) as [H|[H|H]]; lra. }
-          assert (Hnl : nx <= last) by (apply Hmax; simpl; auto).
-          destruct (IH nx ost' (c1 :: cs'')) as [res [Hres Hok]]; auto.
-          -- intros x Hx. apply HiO. simpl; auto.
-          -- destruct Hlast as [E|Hl]; [rewrite <- E in Hnl; lra|auto].
-          -- intros x Hx. apply Hmax. simpl; auto.
-          -- lra.
-          -- intros u Hu Hfu. specialize (Hrgt u Hu). lra.
-          -- intros E u Hu. subst ost'. specialize (Hrgt u Hu).
-             assert (Hln : last == nx).
-             { destruct Hlast as [E|[E|[]]]; [rewrite <- E in Hnl; lra|rewrite <- E; reflexivity]. }
-             assert (Hup : In u pts) by (apply HiR; auto).
-             destruct (Hsep u last Hup Hlp) as [H|[H|H]]; lra.
-          -- intros x Hx. destruct (Hcov x (or_intror Hx)) as [z [[->|Hz] Hxz]]; [|eauto].
-             pose proof (sorted_tail_gt _ _ HsO' _ Hx). lra.
-          -- right. intros u Hu. specialize (Hrgt u Hu). lra.
-          -- simpl in Hlen |- *. lia.
-          -- intros u Hu. rewrite Hg by lra. apply step_fn_skip. lra.
-          -- exists (c1 :: res). rewrite Hres. split; [reflexivity|].
-             apply ok_out_cons; auto. intros t2 Ht2 t' H1 H2.
-             rewrite Hg by lra. rewrite step_fn_skip by lra.
-             destruct ost' as [|o2 ost''].
-             ++ cbn [length nth_error] in Hzero. injection Hzero as ->. reflexivity.
-             ++ destruct cs'' as [|c2 cs''']; [simpl in Hlen; lia|].
-                symmetry. apply step_fn_here; [lra|].
-                destruct (Hcov o2 (or_intror (or_introl eq_refl))) as [z [[->|Hz] Hxz]].
-                ** pose proof (sorted_tail_gt _ _ HsO' o2 (or_introl eq_refl)). lra.
-                ** pose proof (sorted_hd_le _ _ _ HsR Ht2 Hz). lra.
+          assert (P4 : incl (nx :: ost') pts) by (intros x Hx; apply HiO; simpl; auto).
+          assert (P5 : In last (nx :: ost')).
+          { destruct Hlast as [E|Hl]; [rewrite <- E in Hnl; lra|auto]. }
+          assert (P6 : forall x, In x (nx :: ost') -> x <= last)
+            by (intros x Hx; apply Hmax; simpl; auto).
+          assert (P7 : first <= nx) by lra.
+          assert (P8 : forall u, In u rest -> first <= u -> nx <= u)
+            by (intros u Hu Hfu; specialize (Hrgt u Hu); lra).
+          assert (P9 : ost' = [] -> forall u, In u rest -> tol < u - last).
+          { intros E u Hu. subst ost'. specialize (Hrgt u Hu).
+            assert (Hln : last == nx).
+            { destruct P5 as [E|[]]. rewrite <- E. reflexivity. }
+            assert (Hup : In u pts) by (apply HiR; auto).
+            destruct (Hsep u last Hup Hlp) as [H|[H|H]]; lra. }
+          assert (P10 : forall x, In x ost' -> exists z, In z rest /\ x == z).
+          { intros x Hx. destruct (Hcov x (or_intror Hx)) as [z [[Hz|Hz] Hxz]]; [|eauto].
+            pose proof (sorted_tail_gt _ _ HsO' _ Hx). rewrite <- Hz in Hxz. lra. }
+          assert (P12 : length (c1 :: cs2) = length (nx :: ost')) by (simpl in Hlen |- *; lia).
+          assert (P13 : nth_error (c1 :: cs2) (length ost') = Some 0) by exact Hzero.
+          assert (P14 : forall u, nx <= u -> g u = step_fn (nx :: ost') (c1 :: cs2) u).
+          { intros u Hu. rewrite Hg by lra. apply step_fn_skip. lra. }
+          destruct (IH nx ost' (c1 :: cs2) HsR HiR HsO' P4 P5 P6 P7 P8 P9 P10 P11 P12 P13 P14)
+            as [res [Hres Hok]].
+          exists (c1 :: res). rewrite Hres. split; [reflexivity|].
+          apply ok_out_cons; auto. intros t2 Ht2 t' H1 H2.
+          rewrite Hg by lra. rewrite step_fn_skip by lra.
+          destruct ost' as [|o2 ost2].
+          -- cbn [length nth_error] in Hzero. injection Hzero as ->. reflexivity.
+          -- destruct cs2 as [|c2 cs3]; [simpl in Hlen; lia|].
+             symmetry. apply step_fn_here; [lra|].
+             destruct (Hcov o2 (or_intror (or_introl eq_refl))) as [z [[Hz|Hz] Hxz]].
+             ++ pose proof (sorted_tail_gt _ _ HsO' o2 (or_introl eq_refl)).
+                rewrite <- Hz in Hxz. lra.
+             ++ pose proof (sorted_hd_le _ _ _ HsR Ht2 Hz). lra.
         * (* still inside the same old interval *)
           apply Qle_bool_false in Eadv.
           assert (Hynr : In ynx rest).
-          { destruct Hynx as [<-|Hy]; [lra|auto]. }
-          destruct (IH o0 (nx :: ost') (c0 :: c1 :: cs'')) as [res [Hres Hok]]; auto.
-          -- intros u Hu Hfu. specialize (Hrgt u Hu). lra.
-          -- discriminate.
-          -- intros x Hx. destruct (Hcov x Hx) as [z [[->|Hz] Hxz]]; [|eauto].
-             destruct Hx as [<-|Hx]; [lra|].
-             pose proof (sorted_tail_gt _ _ HsO' _ Hx). lra.
-          -- right. intros u Hu. specialize (Hrgt u Hu). lra.
-          -- exists (c0 :: res). rewrite Hres. split; [reflexivity|].
-             apply ok_out_cons; auto. intros t2 Ht2 t' H1 H2.
-             rewrite Hg by lra. symmetry. apply step_fn_here; [lra|].
-             pose proof (sorted_hd_le _ _ _ HsR Ht2 Hynr). lra.
+          { destruct Hynx as [Hy|Hy]; [rewrite <- Hy in Enx; lra|auto]. }
+          assert (P8 : forall u, In u rest -> first <= u -> o0 <= u)
+            by (intros u Hu Hfu; specialize (Hrgt u Hu); lra).
+          assert (P9 : nx :: ost' = [] -> forall u, In u rest -> tol < u - last) by discriminate.
+          assert (P10 : forall x, In x (nx :: ost') -> exists z, In z rest /\ x == z).
+          { intros x Hx. destruct (Hcov x Hx) as [z [[Hz|Hz] Hxz]]; [|eauto].
+            rewrite <- Hz in Hxz.
+            destruct Hx as [Hx|Hx]; [rewrite <- Hx in Hxz; lra|].
+            pose proof (sorted_tail_gt _ _ HsO' _ Hx). lra. }
+          destruct (IH o0 (nx :: ost') (c0 :: c1 :: cs2) HsR HiR HsO HiO Hlast Hmax Hfo
+                       P8 P9 P10 P11 Hlen Hzero Hg) as [res [Hres Hok]].
+          exists (c0 :: res). rewrite Hres. split; [reflexivity|].
+          apply ok_out_cons; auto. intros t2 Ht2 t' H1 H2.
+          rewrite Hg by lra. symmetry. apply step_fn_here; [lra|].
+          pose proof (sorted_hd_le _ _ _ HsR Ht2 Hynr). lra.
   Qed.
 End Loop.
